@@ -521,6 +521,29 @@ class _Run:
                 self.judge(cls, enc[:at] + occ + enc[at:], "nested-wire-type-substitution", "any",
                            detail=f"field {fi.name} (#{fi.number}) carrying inner field #{num} with wire type {wt};")
                 stats["fault:nested-wire-type-substitution"] += 1
+        # (j) well-formed but ODD occurrences under the FITTING wire type: varints that no writer of this
+        #     schema would emit (2 for a bool, 10-byte values, non-minimal encodings), all-ones fixed-width
+        #     payloads, an unpacked element next to a packed list.  Judged by M1-M3 only (types, re-encoding).
+        for fi in ci.fields:
+            fits = declared_wire_types(fi)
+            if fi.is_map or fi.proto_type in ("string", "bytes", "message"):
+                continue
+            base_wt = fits[0]
+            if base_wt == wire.VARINT:
+                pays = [wire.enc_varint(2), wire.enc_varint(2**32), wire.enc_varint(2**63), wire.enc_varint(2**64 - 1),
+                        b"\x80\x00", b"\xff\xff\xff\xff\xff\xff\xff\xff\xff\x7f"]
+            elif base_wt == wire.I32:
+                pays = [b"\xff\xff\xff\xff", b"\x00\x00\xc0\x7f"]
+            else:
+                pays = [b"\xff" * 8, b"\x00\x00\x00\x00\x00\x00\xf8\x7f"]
+            pay = tape.choice(pays, "odd-value")
+            occ = wire.tag(fi.number, base_wt) + pay
+            if fi.repeated and tape.draw(2, "odd-packed"):
+                occ = wire.f_len(fi.number, pay + pay)       # packed with two elements
+            at = bounds[tape.draw(len(bounds), "ins-at")]
+            self.judge(cls, enc[:at] + occ + enc[at:], "odd-wellformed-value", "any",
+                       detail=f"field {fi.name} (#{fi.number}, {fi.proto_type}) given {occ.hex()};")
+            stats["fault:odd-wellformed-value"] += 1
         known = [fi.number for fi in ci.fields] or [1]
         # (d) illegal tags
         for wt in (6, 7):
